@@ -20,9 +20,10 @@ MCDatums ==
     \cup { [t |-> "a", items |-> <<I(x), [t |-> "m", pairs |-> << <<Bytes(<<1, 2>>), I(y)>> >>]>>] : x \in Edge, y \in Edge }
 
 U64s == { Zero, One, MaxI64, Pow2(63), Sub(Pow2(64), One) }
-Out(c, q, d) == [addr |-> "addr", coin |-> IntV(c), assets |-> << <<"policy", "name", IntV(q)>> >>, dhash |-> "", datum |-> d]
+Out(c, q, d) == [addr |-> "addr", coin |-> IntV(c), assets |-> << <<"policy", "name", IntV(q)>> >>,
+                 dhash |-> (IF d.t = "none" THEN "" ELSE "H[wire]"), dwire |-> (IF d.t = "none" THEN "" ELSE "wire"), datum |-> d]
 MCTxs == { [hash |-> "h", inputs |-> <<"a#0", "b#1", "a#0">>, outputs |-> <<Out(c, q, [t |-> "none"]), Out(q, c, I(f))>>,
-            fee |-> IntV(f), start |-> "0", ttl |-> "100"] : c \in U64s, q \in U64s, f \in U64s }
+            wdatums |-> <<I(f), B(c)>>, fee |-> IntV(f), start |-> "0", ttl |-> "100"] : c \in U64s, q \in U64s, f \in U64s }
 
 \* the mapper is stateless: one call of each entry point per argument is every behaviour
 Fresh == arg = NoCall
